@@ -129,7 +129,7 @@ func runC08(cfg *config, res *monitor.Result) {
 			hint := inputHints(t.pkg, t.md, b, 0)
 			seen := map[string]bool{}
 			for _, it := range items {
-				if it.InWKT && (t.pkg.Flavour == "gogo" || it.Kind == "unknown-changed") {
+				if (it.InWKT && (t.pkg.Flavour == "gogo" || it.Kind == "unknown-changed")) || (it.Foreign && it.Kind == "unknown-changed") {
 					// decoded by gogo's own generated code for its well-known types, not by csproto
 					res.Extra("diffs_inside_gogo_wkt_ignored", 1)
 					continue
